@@ -18,10 +18,7 @@ ASSUMPTIONS = [
     "entity identity is the coordinate pair (ghost id in the model); geometry (merging of coincident entities, "
     "splitting of segments) is not modelled: histories keep all entities apart",
     "duplicates of one property name are not distinguished by the specification (it is name-level)",
-    "heat-flow files do not store point-property names (CHPointProp::toStream), so point-property references are "
-    "not exercised for .feh documents",
-    "save + re-open is not exercised for heat-flow documents: the .feh reader does not restore material names "
-    "(\"New Material\") — a load/save round-trip defect that belongs to C14",
+    "arc segments are not exercised for heat-flow documents (no hi_setarcsegmentprop command is registered)",
     "copy commands are only issued for the last entity of its list: FemmProblem::translateCopy iterates a vector "
     "while pushing into it (defect D4) and crashes otherwise",
 ]
@@ -520,9 +517,9 @@ def focus_defs(ph):
               [0, 1], lambda n: ("setlabel", n, None)))
     F.append(("seg/bdry", [("ent", "node", 0, 0, (0.0, 0.0)), ("ent", "node", 0, 0, (1.0, 0.0)), ("ent", "node", 0, 0, (1.0, 1.0)),
                            ("ent", "seg", 0, 1), ("ent", "seg", 1, 2)], "bdry", "seg", [3, 4], lambda n: ("setseg", n, None)))
-    if ph != "heat":
-        F.append(("node/point", [("ent", "node", 0, 0, (0.0, 0.0)), ("ent", "node", 0, 0, (1.0, 0.0))], "point", "node",
-                  [0, 1], lambda n: ("setnode", n, None)))
+    F.append(("node/point", [("ent", "node", 0, 0, (0.0, 0.0)), ("ent", "node", 0, 0, (1.0, 0.0))], "point", "node",
+              [0, 1], lambda n: ("setnode", n, None)))
+    if ph != "heat":         # there is no hi_setarcsegmentprop
         F.append(("arc/bdry", [("ent", "node", 0, 0, (0.0, 0.0)), ("ent", "node", 0, 0, (1.0, 0.0)), ("ent", "node", 0, 0, (2.0, 0.0)),
                                ("ent", "arc", 0, 1), ("ent", "arc", 1, 2)], "bdry", "arc", [3, 4], lambda n: ("setarc", n, None)))
     if ph != "mag":
@@ -543,8 +540,6 @@ def exhaustive(ph, focus, length):
         assign(t, ids[1], mk("B")),
         [("save",), ("reopen",)],
     ]
-    if ph == "heat":
-        alpha.pop()         # .feh files lose material and point-property names on load (C14 territory)
     for word in itertools.product(range(len(alpha)), repeat=length):
         ops = list(base)
         for w in word:
@@ -558,7 +553,7 @@ def random_history(rng, ph, probe=False):
     """a longer history over the full geometry and the whole command alphabet"""
     names = ["A", "B", "C"]
     ops = list(BASE_FULL)
-    kinds = ["block", "bdry"] if probe else [k for k in KINDS if not (ph == "heat" and k == "point")]
+    kinds = ["block", "bdry"] if probe else list(KINDS)
     types = ["seg", "label", "arc"] if probe else ([t for t in TYPES if not (ph == "heat" and t == "arc")])
     tr = Tracker(ph)
     for o in ops:
@@ -639,7 +634,7 @@ def random_history(rng, ph, probe=False):
             emit(("move", t))
         elif r < 0.94:
             emit(("save",))
-        elif not probe and ph != "heat":
+        elif not probe:
             emit(("save",))
             emit(("reopen",))
     emit(("save",))
@@ -655,10 +650,20 @@ def random_history(rng, ph, probe=False):
 # ------------------------------------------------------------------------------------------
 # running femmcli
 # ------------------------------------------------------------------------------------------
+def femmcli(ctx):
+    """private copy of the snapshot's femmcli: a long run must not depend on the shared snapshot
+    directory, which is evicted when other checks build other trees"""
+    import shutil
+    p = os.path.join(ctx.work, "femmcli.bin")
+    if not os.path.exists(p):
+        shutil.copy2(ctx.snap.tool("femmcli"), p)
+    return p
+
+
 def run_batch(ctx, jobs, tag):
     """jobs: list of (key, [lua lines]); every job is wrapped into a protected call.
     Returns (rc, stdout+stderr)."""
-    exe = ctx.snap.tool("femmcli")
+    exe = femmcli(ctx)
     L = []
     for n, (key, lines) in enumerate(jobs):
         L.append("function job%d()\n%s\nend\ncall(job%d,{},\"x\")\n" % (n, "\n".join(lines), n))
@@ -799,18 +804,32 @@ def classify(ops, ph="elec"):
         return "delete-shifts-indices"
     tr = Tracker(ph)
     dangling = False
+    stale = set()          # kinds whose name->index map was left stale by a rename
+    used_stale = False
     for o in ops:
+        if o[0] == "ren" and o[1] == "circ" and "circ" in stale:
+            used_stale = True       # conductors/circuits are looked up for renaming through the map
+        if o[0] == "ren" and o[1] in ("point", "circ") and o[2] in tr.names(o[1]):
+            stale.add(o[1])
+        if o[0] == "add":
+            stale.discard(o[1])
         if o[0] in ("setnode", "setseg", "setarc", "setlabel"):
             t = {"setnode": "node", "setseg": "seg", "setarc": "arc", "setlabel": "label"}[o[0]]
+            if o[1] is not None and K1[t] in stale:
+                used_stale = True
+            if has_slot(ph, t, True) and o[2] is not None and "circ" in stale:
+                used_stale = True
             if o[1] is not None and o[1] not in tr.names(K1[t]):
                 dangling = True
             if has_slot(ph, t, True) and o[2] is not None and o[2] not in tr.names("circ"):
                 dangling = True
         tr.step(o)
+    if used_stale:
+        return "rename-leaves-stale-map"
     if dangling:
         return "assign-before-define-dropped"
     if "ren" in kinds:
-        return "rename-leaves-stale-map"
+        return "rename-changes-association"
     if "reopen" in kinds:
         return "reopen-changes-association"
     return "unclassified"
@@ -854,8 +873,6 @@ def oracle(h, upto=None):
             for e in tr.ents[t]:
                 for second in (False, True):
                     if not has_slot(ph, t, second):
-                        continue
-                    if ph == "heat" and t == "node" and not second:
                         continue
                     m = file_meaning(obs, t, e.id, second, ph)
                     allowed = tr.allowed(e, second)
@@ -971,7 +988,7 @@ def run_probe(ctx, h, n):
     lines.append("end")
     sp = os.path.join(ctx.work, "probe%d.lua" % n)
     open(sp, "w").write("\n".join(lines) + "\n")
-    rc, out, err = vlib.sh([ctx.snap.tool("femmcli"), "--lua-script=" + sp], timeout=8, cwd=ctx.work)
+    rc, out, err = vlib.sh([femmcli(ctx), "--lua-script=" + sp], timeout=8, cwd=ctx.work)
     txt = out + "\n" + err
     for f in os.listdir(ctx.work):
         if f.startswith("probe%d." % n):
@@ -1164,7 +1181,7 @@ def correspond(ctx):
             if crash:
                 return bool(r) and r["status"] == "crash" and r["rc"] != 124
             return probe_violation(r) is not None
-        ops = shrink(ctx, h, pf, budget=25 if crash else 40, nbase=len(BASE_FULL) + 4)
+        ops = shrink(ctx, h, pf, budget=(10 if crash else 20) if ctx.quick() else (25 if crash else 40), nbase=len(BASE_FULL) + 4)
         sig = ("analysis-crash:" if crash else "analysis-uses-other-property:") + classify(ops, "elec") + \
               ("-after-open" if any(o[0] == "reopen" for o in ops) else "")
         if sig in preported:
